@@ -425,6 +425,9 @@ func HandleSendJoin(input HandleSendJoinInput) (*HandleSendJoinResponse, error) 
 	}
 
 	// Check that this is in fact a join event
+	if event.Type() != spec.MRoomMember {
+		return nil, spec.BadJSON("The event must be an m.room.member event")
+	}
 	membership, err := event.Membership()
 	if err != nil {
 		return nil, spec.BadJSON("missing content.membership key")
